@@ -48,7 +48,7 @@ RULE = ("(a) histories: every ordered pair and triple over a pool of %d state-pe
 ASSUMPTIONS = ["each concurrent parse uses its own Parser/TokenMatcher/AstBuilder instances (the library's classes are not documented as thread-safe objects; the property is about parsers working on different documents)",
                "results are compared after subtracting the id offset of the shared generator"]
 DECIDING = ["histories", "G13.evaluated", "schedules", "compile_purity_checks", "free_running_parses"]
-CONFIGS = ("none", "en", "fr")
+CONFIGS = ("none", "en", "fr", "en+scanner")
 
 
 def shift_down(o, off):
@@ -62,7 +62,8 @@ def one_run(parser, matcher, compiler, idg, src, stop, M=None, check_g13=True, c
     off = getattr(idg, "_vf_drawn", 0)
     with probe.observing(ids=True) as obs:
         try:
-            d = parser.parse(src, matcher) if matcher is not None else parser.parse(src)
+            arg = TokenScanner(src) if getattr(parser, "_vf_as_scanner", False) else src
+            d = parser.parse(arg, matcher) if matcher is not None else parser.parse(arg)
             if hold is not None:
                 hold.append((d, copy.deepcopy(d)))
             d = dict(d)
@@ -92,9 +93,14 @@ def one_run(parser, matcher, compiler, idg, src, stop, M=None, check_g13=True, c
 
 
 def fresh(kind):
+    """kind: matcher configuration; a '+scanner' suffix hands every source over as a TokenScanner object"""
     idg = IdGenerator()
-    m = {"en": lambda: TokenMatcher("en"), "fr": lambda: TokenMatcher("fr"), "none": lambda: None}[kind]()
-    return Parser(AstBuilder(idg)), m, Compiler(idg), idg
+    base = kind.split("+")[0]
+    m = {"en": lambda: TokenMatcher("en"), "fr": lambda: TokenMatcher("fr"), "none": lambda: None}[base]()
+    p = Parser(AstBuilder(idg))
+    if kind.endswith("+scanner"):
+        p._vf_as_scanner = True         # harness-owned flag read by one_run
+    return p, m, Compiler(idg), idg
 
 
 _solo = {}
